@@ -66,6 +66,25 @@ inline bool qp_active_set(int n, const std::vector<double> &d, const std::vector
     return found;
 }
 
+
+// Hildreth's dual coordinate ascent for the same QP -- for problems too large for active-set enumeration.  lambda_j >= 0 (free for equalities);
+// x = d + 1/2 W^-1 A^T lambda.  Returns false if it has not converged (primal infeasibility above 1e-9 after maxSweeps).
+inline bool qp_hildreth(int n, const std::vector<double> &d, const std::vector<double> &w, const std::vector<double> &sc,
+                        const std::vector<SepC> &cs, std::vector<double> &x, int maxSweeps = 400000) {
+    int m = cs.size(); std::vector<double> lam(m, 0), den(m, 0); x = d;
+    for (int j = 0; j < m; j++) { const SepC &c = cs[j]; den[j] = 0.5 * (sc[c.r] * sc[c.r] / w[c.r] + sc[c.l] * sc[c.l] / w[c.l]); }
+    for (int sweep = 0; sweep < maxSweeps; sweep++) {
+        double worst = 0, moved = 0;
+        for (int j = 0; j < m; j++) { const SepC &c = cs[j];
+            double s = sc[c.r] * x[c.r] - sc[c.l] * x[c.l] - c.gap;       // slack (>= 0 wanted)
+            double nl = lam[j] - s / den[j]; if (!c.eq && nl < 0) nl = 0;
+            double dl = nl - lam[j]; if (dl != 0) { lam[j] = nl; x[c.r] += 0.5 * sc[c.r] / w[c.r] * dl; x[c.l] -= 0.5 * sc[c.l] / w[c.l] * dl; moved = std::max(moved, std::fabs(dl)); }
+            worst = std::max(worst, c.eq ? std::fabs(s) : std::max(0.0, -s)); }
+        if (worst < 1e-11 && moved < 1e-11) return true;
+    }
+    return false;
+}
+
 // y_i = a_i x_i : y_r >= y_l + gap.  positive cycle <=> infeasible
 inline bool feasible_bf(int n, const std::vector<SepC> &cs) {
     std::vector<double> dist(n, 0);
